@@ -29,3 +29,23 @@ Definition run_c04_ramp_with step (i : (Z * Z) * list (Z * bool * Z * Z)) : list
 Definition run_c04_ramp := run_c04_ramp_with trio_ramp_step.
 (* the code as found (before the fix: commit): used once to confirm the faithful model against the unrepaired contract *)
 Definition run_c04_ramp_unfixed := run_c04_ramp_with trio_ramp_step_unfixed.
+
+(* ---- curve functions through the hook ------------------------------------------------------------ *)
+From WW Require Import CPSwap Stable3.
+Definition ramp5 (t : Z * Z * Z * Z * Z) : ramp := match t with (a0, a1, now, h0, h1) => mkRamp a0 a1 now h0 h1 end.
+
+(* input: (ramp, (a, b, c)) *)
+Definition run_c04_d (i : (Z * Z * Z * Z * Z) * (Z * Z * Z)) : list Z :=
+  match i with (t, (a, b, c)) => obs_of (fun d => [d]) (compute_d (ramp5 t) a b c) end.
+(* input: (ramp, (amount, src, dst, unswapped)) *)
+Definition run_c04_swap (i : (Z * Z * Z * Z * Z) * (Z * Z * Z * Z)) : list Z :=
+  match i with (t, (x, s, d, u)) => obs_of (fun r => [new_src r; new_dst r; swapped r]) (swap_to (ramp5 t) x s d u) end.
+(* input: (ramp, (ask_amount, src, dst, unswapped)) *)
+Definition run_c04_rsim (i : (Z * Z * Z * Z * Z) * (Z * Z * Z * Z)) : list Z :=
+  match i with (t, (x, s, d, u)) => obs_of (fun r => [r]) (reverse_sim (ramp5 t) x s d u) end.
+(* input: (ramp, (deposits), (reserves), supply) *)
+Definition run_c04_mint (i : (Z * Z * Z * Z * Z) * (Z * Z * Z) * (Z * Z * Z) * Z) : list Z :=
+  match i with (t, (da, db, dc), (sa, sb, sc), s) => obs_of (fun r => [r]) (compute_mint (ramp5 t) da db dc sa sb sc s) end.
+(* helpers::compute_swap. input: (ramp, (offer_pool, ask_pool, unswapped_pool, offer), (protocol, swap, burn)) *)
+Definition run_c04_cswap (i : (Z * Z * Z * Z * Z) * (Z * Z * Z * Z) * (Z * Z * Z)) : list Z :=
+  match i with (t, (op, ask, uns, x), (p, s, b)) => obs_of swapc_obs (compute_swap3 (ramp5 t) op ask uns x (mkFees p s b)) end.
